@@ -1,0 +1,65 @@
+//go:build verif
+
+// Contracts for govc (see /verif/DESIGN.md). Comment-only; compiled only with -tags verif.
+
+package fluentdforward
+
+//@ property C10 C07
+
+// EventTime: fixext8 type 0, seconds and nanoseconds as big-endian uint32 (the format has no more bits)
+//@ func EncodeEventTime(buffer []byte, start int, value time.Time) int
+//@   requires 0 <= start && start + 10 <= len(buffer)
+//@   modifies buffer[start : start+10]
+//@   ensures  result == start + 10 && buffer[start] == 215 && buffer[start+1] == 0
+//@   ensures  fastmsgpack.be32(buffer, start + 2) == unixsec(value) % 4294967296 && fastmsgpack.be32(buffer, start + 6) == nanosec(value)
+
+// ---- representation invariant of the serializer (established by NewEventSerializer) -----------------------------------
+//@ pure func validpacker(p *eventSerializer) bool :=
+//@     p != nil && len(p.serializedFieldKeys) == len(p.fieldMasks) && len(p.fieldRewriters) == len(p.fieldMasks)
+//@  && len(p.serializedEnvFieldKeys) == len(p.envFieldLocators) && len(p.fieldMasks) <= 65534 && len(p.envFieldLocators) <= 65535
+//@  && (forall j int :: 0 <= j && j < len(p.envFieldLocators) ==> 0 <= p.envFieldLocators[j] && p.envFieldLocators[j] < len(p.fieldMasks))
+// vis(p, r, i): field i is emitted in the root map — named, not hidden/environment, non-empty
+//@ pure func vis(p *eventSerializer, r *base.LogRecord, i int) bool := !p.fieldMasks[i] && len(r.Fields[i]) > 0
+//@ pure func vmax(p *eventSerializer, r *base.LogRecord, i int) int :=
+//@     p.fieldRewriters[i] != nil ? base.rwmax(p.fieldRewriters[i], r.Fields[i], r) : len(r.Fields[i])
+// ghost prefix sums / counts (defined by their recurrence in encodeRecord's `define` clauses)
+//@ pure func psum(p *eventSerializer, r *base.LogRecord, i int) int
+//@ pure func vcnt(p *eventSerializer, r *base.LogRecord, i int) int
+//@ pure func esum(p *eventSerializer, r *base.LogRecord, j int) int
+
+//@ func (packer *eventSerializer) encodeRecord(record *base.LogRecord, buffer []byte) int
+//@   requires validpacker(packer) && record != nil && len(packer.fieldMasks) <= len(record.Fields) && len(buffer) <= 4294967295
+//@   define   psum(packer, record, 0) == 0 && forall i int :: 0 <= i && i < len(packer.fieldMasks) ==>
+//@               psum(packer, record, i + 1) == psum(packer, record, i) + (vis(packer, record, i) ? len(packer.serializedFieldKeys[i]) + 5 + vmax(packer, record, i) : 0)
+//@   define   vcnt(packer, record, 0) == 0 && forall i int :: 0 <= i && i < len(packer.fieldMasks) ==>
+//@               vcnt(packer, record, i + 1) == vcnt(packer, record, i) + (vis(packer, record, i) ? 1 : 0)
+//@   define   esum(packer, record, 0) == 0 && forall j int :: 0 <= j && j < len(packer.envFieldLocators) ==>
+//@               esum(packer, record, j + 1) == esum(packer, record, j) + len(packer.serializedEnvFieldKeys[j]) + 5 + len(record.Fields[packer.envFieldLocators[j]])
+//@   define   forall i int :: 0 <= i && i <= len(packer.fieldMasks) ==> 0 <= psum(packer, record, i) && psum(packer, record, i) <= psum(packer, record, len(packer.fieldMasks))
+//@                                                                     && 0 <= vcnt(packer, record, i) && vcnt(packer, record, i) <= i
+//@   define   forall j int :: 0 <= j && j <= len(packer.envFieldLocators) ==> 0 <= esum(packer, record, j) && esum(packer, record, j) <= esum(packer, record, len(packer.envFieldLocators))
+//@   requires[fits] 14 + psum(packer, record, len(packer.fieldMasks)) + 15 + esum(packer, record, len(packer.envFieldLocators)) < len(buffer)
+//@   modifies buffer[:]
+//@   ensures  0 < result && result <= len(buffer)
+//@   ensures[root] buffer[0] == 146 && buffer[1] == 215 && buffer[2] == 0
+//@        && fastmsgpack.be32(buffer, 3) == unixsec(record.Timestamp) % 4294967296 && fastmsgpack.be32(buffer, 7) == nanosec(record.Timestamp)
+//@   ensures[field-count] fastmsgpack.maplenat(buffer, 11) == 1 + vcnt(packer, record, len(packer.fieldMasks))
+//@   loop 1: invariant -1 <= rangeindex && rangeindex < len(packer.fieldMasks) && reservedRootMapLenPosition == 11
+//@   loop 1: invariant len(fields) == len(packer.fieldMasks) && ref(fields) == ref(record.Fields) && off(fields) == off(record.Fields)
+//@   loop 1: invariant fieldMasks === packer.fieldMasks && serializedFieldKeys === packer.serializedFieldKeys && fieldRewriters === packer.fieldRewriters
+//@   loop 1: invariant 12 <= position && position <= 14 + psum(packer, record, rangeindex + 1)
+//@   loop 1: invariant rootMapSize == 1 + vcnt(packer, record, rangeindex + 1)
+//@   loop 1: invariant buffer[0] == 146 && buffer[1] == 215 && buffer[2] == 0
+//@        && fastmsgpack.be32(buffer, 3) == unixsec(record.Timestamp) % 4294967296 && fastmsgpack.be32(buffer, 7) == nanosec(record.Timestamp)
+//@   loop 2: invariant -1 <= rangeindex#2 && rangeindex#2 < len(packer.envFieldLocators) && len(fields) == len(packer.fieldMasks)
+//@   loop 2: invariant ref(fields) == ref(record.Fields) && off(fields) == off(record.Fields)
+//@   loop 2: invariant envFieldLocators === packer.envFieldLocators && serializedEnvFieldKeys === packer.serializedEnvFieldKeys
+//@   loop 2: invariant 12 <= position && position <= 14 + psum(packer, record, len(packer.fieldMasks)) + 15 + esum(packer, record, rangeindex#2 + 1)
+//@   loop 2: invariant buffer[0] == 146 && buffer[1] == 215 && buffer[2] == 0
+//@        && fastmsgpack.be32(buffer, 3) == unixsec(record.Timestamp) % 4294967296 && fastmsgpack.be32(buffer, 7) == nanosec(record.Timestamp)
+//@   loop 2: invariant fastmsgpack.maplenat(buffer, 11) == 1 + vcnt(packer, record, len(packer.fieldMasks))
+
+//@ func (packer *eventSerializer) SerializeRecord(record *base.LogRecord) base.LogStream
+//@   requires validpacker(packer) && record != nil && len(packer.fieldMasks) <= len(record.Fields) && len(packer.buffer) == 2 * defs.InputLogMaxRecordBytes
+//@   modifies packer.buffer[:]
+//@   ensures  len(result) <= len(packer.buffer)
